@@ -1134,6 +1134,12 @@ def detect_recursion(func: Callable[..., BaseMarker]) -> Callable[..., BaseMarke
 
 @detect_recursion
 def intersection(*markers: BaseMarker) -> BaseMarker:
+    if any(m.is_empty() for m in markers):
+        return EmptyMarker()
+    markers = tuple(m for m in markers if not m.is_any())
+    if not markers:
+        return AnyMarker()
+
     # Sometimes normalization makes it more complicated instead of simple
     # -> choose candidate with the least complexity
     unnormalized: BaseMarker = MultiMarker(*markers)
@@ -1161,6 +1167,12 @@ def intersection(*markers: BaseMarker) -> BaseMarker:
 
 @detect_recursion
 def union(*markers: BaseMarker) -> BaseMarker:
+    if any(m.is_any() for m in markers):
+        return AnyMarker()
+    markers = tuple(m for m in markers if not m.is_empty())
+    if not markers:
+        return EmptyMarker()
+
     # Sometimes normalization makes it more complicated instead of simple
     # -> choose candidate with the least complexity
     unnormalized: BaseMarker = MarkerUnion(*markers)
